@@ -340,6 +340,12 @@ func (pf *Portfolio) CheckSyms(asserts []*Term, timeoutMs int, wantModel bool) (
 			return Unsat, nil, nil, "simp"
 		}
 	}
+	asserts = propagateConstEq(asserts)
+	for _, a := range asserts {
+		if a == TFalse {
+			return Unsat, nil, nil, "simp"
+		}
+	}
 	script, syms := Script(asserts)
 	var want []string
 	if wantModel {
